@@ -56,7 +56,11 @@ def check_target(sysb, props):
         for q in (1, 2, 3):
             r1 = m.get_status(IDS, q, S).bounds
             r2 = m2.get_status(IDS, q, S).bounds
-            if (r1.lower, r1.upper) != (r2.lower, r2.upper):
+            # compared as usable sets: an interval end inside the exclusion zone denotes the same
+            # usable range as the zone's edge
+            u1 = ref.usable(r1.lower.as_watts(), r1.upper.as_watts(), sysb[2], sysb[3])
+            u2 = ref.usable(r2.lower.as_watts(), r2.upper.as_watts(), sysb[2], sysb[3])
+            if u1 != u2:
                 v.append(("empty_proposal_equivalent_to_no_proposal",
                           {"reported_bounds": [r1.lower.as_watts(), r1.upper.as_watts()],
                            "with_empty_proposal": [r2.lower.as_watts(), r2.upper.as_watts()], "priority": prio, "asked_for": q}))
